@@ -12,6 +12,8 @@ EXPLANATION = ('Every function of repartition/distributor_channels.rs is path-en
                'wakes the channel\'s blocked senders; (5) sender-count pairing — Clone increments and Drop decrements n_senders exactly '
                'once, recv_wakers is closed only after the decrement, and n_senders / empty_channels are modified nowhere else. '
                'Exactly-once/order of values and the empty_channels arithmetic under races are not decided.')
+# path rules cut loops after a bounded number of iterations: complete over rule instances, not over all unrollings
+EXHAUSTIVE = False
 ASSUMPTIONS = ['loops unrolled twice', 'parking_lot guards are released at their Drop terminator / mem::drop']
 
 DC = 'datafusion_physical_plan::repartition::distributor_channels::'
